@@ -311,7 +311,7 @@ STEER_CONFIGS = {
                        "Shutdown racing the very first calls (before / while Joe is initialised), 2 concurrent Shutdown calls"),
     "replayer-faults": (dict(subs=["s0", "s1"], sub_topics={"s0": ["a"], "s1": ["a"]}, pubs=["h0", "h1", "p0k0"],
                              pub_topics={"h0": ["a"], "h1": ["a"], "p0k0": ["a"]}, downs=[], last_ids={"s0": "h0", "s1": "h0"},
-                             pub_after={"h1": "h0"}, cancel_subs=["s0"], faults=2), 0, ["finite-manual"],
+                             pub_after={"h1": "h0"}, cancel_subs=["s0"], faults=2), 0, ["finite-manual", "valid-manual"],
                         "2 resuming subscribers, two faults among Put error / Put panic / Replay error / Replay panic / failing replayed Send or Flush"),
 }
 
